@@ -77,7 +77,9 @@ def _custom_detectors(classes):
         return c in (D, G)
 
     def d2(c):
-        return True
+        # every target of the world, nothing else (str, int, list … stay with the library's converters, so that
+        # conversions through Dict[str, T] / Tuple[T, int] / List[T] only show the converter of T)
+        return any(c is k for k in classes)
 
     return [d0, d1, d2]
 
@@ -136,6 +138,64 @@ def lib_probe(case):
 
 
 NONCLASS = 5
+
+# every place of a declaration where a value is converted to a type: each is "a conversion to that type" and must use
+# the converter the registrations made SO FAR select, however long ago the class / function was declared
+KINDS = ["field", "opt", "list", "dict", "tuple", "dc", "prop", "proplist", "param", "paramlist", "ret", "retlist",
+         "nested"]
+
+
+def declare(classes, ts):
+    """(worker) declare, NOW, one consumer of every kind for each class in `ts`; returns {(kind, t): thunk} where the
+    thunk performs a conversion of a fresh non-instance to the class through that consumer and returns the result"""
+    import utype
+    from typing import Dict, List, Optional, Tuple
+    from utype import Schema
+    uses = {}
+
+    def schema(ann):
+        return type("S", (Schema,), {"__annotations__": {"v": ann}})
+
+    def prop_schema(ann, mk):
+        def p(self):
+            return mk()
+        p.__annotations__ = {"return": ann}
+        return type("P", (Schema,), {"p": property(p)})
+
+    def fparam(ann):
+        def f(x):
+            return x
+        f.__annotations__ = {"x": ann}
+        return utype.parse(f)
+
+    def fret(ann, mk):
+        def g():
+            return mk()
+        g.__annotations__ = {"return": ann}
+        return utype.parse(g)
+
+    for t in ts:
+        T = classes[t]
+        S1, S2, S3, S4, S5 = schema(T), schema(Optional[T]), schema(List[T]), schema(Dict[str, T]), schema(Tuple[T, int])
+        DC = utype.dataclass(type("DC", (), {"__annotations__": {"v": T}}))
+        P1, P2 = prop_schema(T, object), prop_schema(List[T], lambda: [object()])
+        F1, F2 = fparam(T), fparam(List[T])
+        G1, G2 = fret(T, object), fret(List[T], lambda: [object()])
+        N = schema(List[S1])                       # second level: a declared class inside a declared container
+        uses[("field", t)] = lambda S1=S1: S1(v=object()).v
+        uses[("opt", t)] = lambda S2=S2: S2(v=object()).v
+        uses[("list", t)] = lambda S3=S3: S3(v=[object()]).v[0]
+        uses[("dict", t)] = lambda S4=S4: next(iter(S4(v={"a": object()}).v.values()))
+        uses[("tuple", t)] = lambda S5=S5: S5(v=(object(), 1)).v[0]
+        uses[("dc", t)] = lambda DC=DC: DC(v=object()).v
+        uses[("prop", t)] = lambda P1=P1: P1().p
+        uses[("proplist", t)] = lambda P2=P2: P2().p[0]
+        uses[("param", t)] = lambda F1=F1: F1(object())
+        uses[("paramlist", t)] = lambda F2=F2: F2([object()])[0]
+        uses[("ret", t)] = lambda G1=G1: G1()
+        uses[("retlist", t)] = lambda G2=G2: G2()[0]
+        uses[("nested", t)] = lambda N=N: N(v=[{"v": object()}]).v[0].v
+    return uses
 
 
 def impl(case):
@@ -222,8 +282,19 @@ def impl(case):
             for t, f in case["base"].get("shortcut", []):
                 setattr(classes[t], "__bconv__", staticmethod(fn(f)) if f >= 0 else 5)
         outs = []
+        declared = {}
         for op in case["ops"]:
-            if "res" in op or "resb" in op:
+            if "decl" in op:
+                declared[op["decl"]] = declare(classes, op["cls"])
+                outs.append("decl")
+            elif "use" in op:
+                # a conversion through a consumer declared earlier in the history (library registry only)
+                try:
+                    r = declared[op["use"]][(op["kind"], op["t"])]()
+                    outs.append(r[1] if isinstance(r, tuple) and len(r) == 2 and r[0] == "conv" else "other")
+                except Exception:
+                    outs.append("other")
+            elif "res" in op or "resb" in op:
                 try:
                     outs.append(ident(resolve(classes[op["res"]]) if "res" in op else base.resolve(classes[op["resb"]])))
                 except Exception as e:       # a lookup never raises (a detector's TypeError/ValueError means "no")
@@ -326,6 +397,9 @@ def spec_run(case, tb):
         return e["fn"] if e else b.get("default")
 
     for op in case["ops"]:
+        if "decl" in op:
+            outs.append("decl")        # declaring a class or a function registers nothing and converts nothing
+            continue
         if "reg" in op or "regb" in op:
             r = op.get("reg") or op.get("regb")
             if well_formed(r, case, own="reg" in op):
@@ -337,13 +411,14 @@ def spec_run(case, tb):
         if "resb" in op:
             outs.append(base_answer(op["resb"]))
             continue
-        t = op["res"] if "res" in op else op["conv"]
+        # a conversion through a declared consumer is a conversion to that type, made now
+        t = op["res"] if "res" in op else op["conv"] if "conv" in op else op["t"]
         if t in shortcut:
             v = shortcut[t]
         else:
             e = chosen(tb, regs, t)
             v = e["fn"] if e else (base_answer(t) if b else (case.get("default") if mode == "fresh" else None))
-        outs.append(_conv(v) if "conv" in op else v)
+        outs.append(_conv(v) if ("conv" in op or "use" in op) else v)
     return outs
 
 
@@ -457,6 +532,8 @@ def gen_case(rng, maxlen=8, mode=None):
                 ops.append({"resb": t})
             else:
                 ops.append({"res": t})
+    if mode == "transformer" and rng.random() < 0.6:
+        ops = with_declarations(rng, ops, tb)
     if not any("reg" in o for o in ops):
         ops.insert(0, {"reg": gen_reg(rng, 100, bad_ok=False)})
     ops.append({"res": rng.choice(resolved) if resolved and rng.random() < 0.6 else rng.randrange(NT)})
@@ -474,6 +551,25 @@ def gen_case(rng, maxlen=8, mode=None):
         if rng.random() < 0.3:
             case["base"]["shortcut"] = [[5, 950]] if rng.random() < 0.7 else [[5, -1]]
     return case
+
+
+def with_declarations(rng, ops, tb):
+    """declare consumers (Schema fields, item types, @property returns, dataclass fields, function params / returns)
+    somewhere in the history — preferably when a converter for the class is already in force — and convert through them
+    after later registrations: a converter remembered per declaration shows as a stale answer"""
+    regs_at = [i for i, o in enumerate(ops) if "reg" in o]
+    pos = rng.choice(regs_at) + 1 if regs_at and rng.random() < 0.7 else rng.randrange(len(ops) + 1)
+    touched = [t for t in range(NCLS) for o in ops if "reg" in o and well_formed(o["reg"]) and accepts(tb, o["reg"], t)]
+    pool = (touched * 2 + [8, 9, 8, 9] + list(range(NCLS)))      # 8, 9: the library's own converter exists at declaration
+    ts = sorted({rng.choice(pool) for _ in range(rng.randint(1, 3))})
+    out = list(ops[:pos]) + [{"decl": 0, "cls": ts}]
+    for o in ops[pos:]:
+        out.append(o)
+        if rng.random() < 0.6:
+            out.append({"use": 0, "kind": rng.choice(KINDS), "t": rng.choice(ts)})
+    for _ in range(rng.randint(1, 3)):
+        out.append({"use": 0, "kind": rng.choice(KINDS), "t": rng.choice(ts)})
+    return out
 
 
 def exhaustive_cases(maxlen):
@@ -530,12 +626,14 @@ class C16(Check):
             "re-registration of the same signature; resolve / conversion; on a fresh TypeRegistry (cache on/off, default), "
             "on one with a live base registry (registered into and resolved during the history, own cache/default/"
             "shortcut), and on the library's transformer and encoder registries through utype.register_transformer / "
-            "register_encoder / type_transform / JSONEncoder.default; thorough adds every history of length<=5 over a "
+            "register_encoder / type_transform / JSONEncoder.default; in the transformer setting also conversions through consumers "
+            "DECLARED during the history (13 kinds: Schema/dataclass field, Optional, List/Dict/Tuple item, nested declared class, "
+            "@property return, parsed-function parameter / return, each plain and List[...]) after later registrations; thorough adds every history of length<=5 over a "
             "9-op alphabet and every own/base history of length<=4 over a 6-op alphabet.  non-trivial = contains a resolve "
             "after >=2 accepting registrations or a registration after a resolve of a class it accepts; distinct by the "
             "full history")
     assumptions = ["class world (issubclass/isinstance/hasattr/detector behaviour) is sampled from 11 real targets in T2; the theorems are for every world",
-                   "the detector closure and the argument checks of the outer register() (base.py:50-79) are modelled by hand and tied by T2 only (T1 regenerates the inner decorator and resolve)"]
+                   "the live base registry and the consumers of a resolution outside base.py (fields, item types, property / function annotations of declared classes) are modelled by hand and tied by T2 only (T1 regenerates register — outer call, detector closure, inner decorator — and resolve)"]
     budget = {"quick": 1500, "thorough": 20000}
     search_budget = {"quick": 4000, "thorough": 40000}
 
@@ -559,7 +657,9 @@ class C16(Check):
         line["shortcut"] = [[a, b] for a, b in eff_shortcut(t, case.get("shortcut", []), case).items()]
         line["fallback"] = []
         line["legacy"] = bool(case.get("legacy"))
-        ops = [({"res": o["conv"]} if "conv" in o else o) for o in case["ops"]]
+        # the model has no per-declaration state: a declaration is nothing, a use is a lookup made at that moment
+        ops = [({"res": o["conv"]} if "conv" in o else {"res": o["t"]} if "use" in o else o)
+               for o in case["ops"] if "decl" not in o]
         if mode == "base" or case.get("base"):
             b = case["base"]
             line["base"] = {"cache": b.get("cache", False),
@@ -576,8 +676,16 @@ class C16(Check):
         """the driver answers one entry per call; drop the library's own registrations in front, show conversions as
         conversions"""
         nlib = 0 if case.get("base") else len(tb.get("lib", []))
-        outs = list(outs[nlib:])
-        return [(_conv(v) if i < len(case["ops"]) and "conv" in case["ops"][i] else v) for i, v in enumerate(outs)]
+        it = iter(outs[nlib:])
+        res = []
+        for op in case["ops"]:
+            if "decl" in op:
+                res.append("decl")
+                continue
+            v = next(it, "missing")
+            res.append(_conv(v) if ("conv" in op or "use" in op) else v)
+        rest = list(it)
+        return res + ([{"extra": rest}] if rest else [])
 
     def compare(self, case, io, mo):
         if not isinstance(mo, dict) or "model" not in mo:
@@ -620,8 +728,10 @@ class C16(Check):
                 if any(accepts(tb, r, t) for t in resolved):
                     nontrivial = True
                 regs_seen.append(r)
+            elif "decl" in op:
+                continue
             else:
-                t = next(iter(op.values()))
+                t = op["t"] if "use" in op else next(iter(op.values()))
                 resolved.add(t)
                 if sum(accepts(tb, r, t) for r in regs_seen) >= 2:
                     nontrivial = True
@@ -635,6 +745,8 @@ class C16(Check):
         out = []
         ops = case["ops"]
         for i in range(len(ops)):
+            if "decl" in ops[i]:
+                continue        # uses need their declaration
             out.append(dict(case, ops=ops[:i] + ops[i + 1:] + [{"res": rng.randrange(NT)}]))
         for t in range(NT):
             out.append(dict(case, ops=ops + [{"res": t}]))
